@@ -7,6 +7,7 @@ use std::sync::{Arc, RwLock};
 
 pub use crate::{
     apng::Frame,
+    atomicmin::AtomicMin,
     colors::{BitDepth, ColorType},
     deflate::{crc32, deflate, inflate, Deflaters},
     error::PngError,
